@@ -157,3 +157,232 @@ Proof.
     destruct (find_close r) as [[[neg body] rest]|] eqn:E; [|f_equal; apply K; lia].
     apply find_close_length in E. f_equal. apply K. lia.
 Qed.
+
+(* ------------------------------------------------------------------ how a pattern TEXT is read, stated independently of parse_glob *)
+Definition special (c : N) : Prop := c = c_star \/ c = c_qmark \/ c = c_lbrack.
+
+(* members of a bracket expression: x-y is a range whenever a character follows the hyphen *)
+Inductive items_of : str -> list setitem -> Prop :=
+| io_nil : items_of [] []
+| io_range c h r its : items_of r its -> items_of (c :: c_hyphen :: h :: r) (SRange c h :: its)
+| io_char c r its : (forall h r', r <> c_hyphen :: h :: r') -> items_of r its -> items_of (c :: r) (SChar c :: its).
+
+(* r is what follows `[`: an optional `!`, a first member (any character, `]` included), further members without `]`,
+   the closing `]`, and the rest of the pattern *)
+Definition set_text (r : str) (neg : bool) (members rest : str) : Prop :=
+  exists first body, members = first :: body /\ ~ In c_rbrack body /\
+    r = (if neg then [c_bang] else []) ++ first :: body ++ c_rbrack :: rest /\ (neg = false -> first <> c_bang).
+
+Inductive parses : str -> pattern -> Prop :=
+| pa_nil : parses [] []
+| pa_star r p : parses r p -> parses (c_star :: r) (PStar :: p)
+| pa_any r p : parses r p -> parses (c_qmark :: r) (PAny :: p)
+| pa_set r neg members rest its p :
+    set_text r neg members rest -> items_of members its -> parses rest p -> parses (c_lbrack :: r) (PSet neg its :: p)
+| pa_open r p :           (* a `[` that is never closed is an ordinary character *)
+    (forall neg members rest, ~ set_text r neg members rest) -> parses r p -> parses (c_lbrack :: r) (PLit c_lbrack :: p)
+| pa_lit c r p : ~ special c -> parses r p -> parses (c :: r) (PLit c :: p).
+
+Lemma split_rbrack_some s a b : split_rbrack s = Some (a, b) <-> s = a ++ c_rbrack :: b /\ ~ In c_rbrack a.
+Proof.
+  revert a b. induction s as [|c r IH]; intros a b; simpl.
+  - split; [discriminate|]. intros [E _]. destruct a; discriminate.
+  - destruct (N.eqb c c_rbrack) eqn:Ec.
+    + apply N.eqb_eq in Ec. subst c. split.
+      * intros H. inversion H; subst. split; auto.
+      * intros [E Hn]. destruct a as [|x a]; simpl in E; inversion E; subst; auto. exfalso. apply Hn. left. reflexivity.
+    + apply N.eqb_neq in Ec. destruct (split_rbrack r) as [[a' b']|] eqn:E.
+      * split.
+        -- intros H. inversion H; subst. destruct (proj1 (IH a' b) eq_refl) as [E1 E2]. subst r. split; auto.
+           intros [X|X]; [congruence | contradiction].
+        -- intros [E1 Hn]. destruct a as [|x a]; simpl in E1; inversion E1; subst; [congruence|].
+           assert (Some (a', b') = Some (a, b)) as X.
+           { apply IH. split; auto. intros X. apply Hn. right. exact X. }
+           inversion X; subst. reflexivity.
+      * split; [discriminate|]. intros [E1 Hn]. destruct a as [|x a]; simpl in E1; inversion E1; subst; [congruence|].
+        assert (None = Some (a, b)) as X.
+        { apply IH. split; auto. intros X. apply Hn. right. exact X. }
+        discriminate.
+Qed.
+
+Lemma split_rbrack_none s : split_rbrack s = None -> ~ In c_rbrack s.
+Proof.
+  induction s as [|c r IH]; simpl; intros H; auto.
+  destruct (N.eqb c c_rbrack) eqn:Ec; [discriminate|]. apply N.eqb_neq in Ec.
+  destruct (split_rbrack r) as [[a b]|]; [discriminate|]. intros [X|X]; [congruence | apply IH; auto].
+Qed.
+
+(* the closing-bracket search on r1 = text after the optional `!` *)
+Definition close_after (r1 : str) : option (str * str) :=
+  match r1 with
+  | c :: r2 =>
+      if N.eqb c c_rbrack
+      then match split_rbrack r2 with Some (a, b) => Some (c :: a, b) | None => None end
+      else split_rbrack r1
+  | [] => None
+  end.
+
+Lemma close_after_some r1 m rest : close_after r1 = Some (m, rest) <->
+  exists first body, m = first :: body /\ ~ In c_rbrack body /\ r1 = first :: body ++ c_rbrack :: rest.
+Proof.
+  unfold close_after. destruct r1 as [|c r2].
+  - split; [discriminate|]. intros [f [b [_ [_ E]]]]. discriminate.
+  - destruct (N.eqb c c_rbrack) eqn:Ec.
+    + apply N.eqb_eq in Ec. subst c. destruct (split_rbrack r2) as [[a b]|] eqn:E.
+      * apply split_rbrack_some in E. destruct E as [E Hn]. split.
+        -- intros H. inversion H; subst. exists c_rbrack, a. auto.
+        -- intros [f [body [Em [Hb Er]]]]. inversion Er; subst.
+           assert (split_rbrack (body ++ c_rbrack :: rest) = Some (body, rest)) as X by (apply split_rbrack_some; auto).
+           assert (split_rbrack (body ++ c_rbrack :: rest) = Some (a, b)) as Y by (apply split_rbrack_some; auto).
+           rewrite X in Y. inversion Y; subst. reflexivity.
+      * apply split_rbrack_none in E. split; [discriminate|]. intros [f [body [Em [Hb Er]]]]. inversion Er; subst.
+        exfalso. apply E. apply in_app_iff. right. left. reflexivity.
+    + apply N.eqb_neq in Ec. split.
+      * intros H. apply split_rbrack_some in H. destruct H as [E Hn].
+        destruct m as [|f body]; simpl in E; inversion E; subst; [congruence|].
+        exists f, body. split; auto. split; auto. intros X. apply Hn. right. exact X.
+      * intros [f [body [Em [Hb Er]]]]. inversion Er; subst. apply split_rbrack_some. split; auto.
+        intros [X|X]; [congruence | contradiction].
+Qed.
+
+Lemma find_close_unfold r :
+  find_close r = match r with
+                 | c :: r' => if N.eqb c c_bang
+                              then match close_after r' with Some (m, rest) => Some (true, m, rest) | None => None end
+                              else match close_after r with Some (m, rest) => Some (false, m, rest) | None => None end
+                 | [] => None
+                 end.
+Proof.
+  unfold find_close, close_after. destruct r as [|c r']; [reflexivity|].
+  destruct (N.eqb c c_bang).
+  - destruct r' as [|c2 r2]; [reflexivity|]. destruct (N.eqb c2 c_rbrack).
+    + destruct (split_rbrack r2) as [[a b]|]; reflexivity.
+    + destruct (split_rbrack (c2 :: r2)) as [[a b]|]; reflexivity.
+  - destruct (N.eqb c c_rbrack).
+    + destruct (split_rbrack r') as [[a b]|]; reflexivity.
+    + destruct (split_rbrack (c :: r')) as [[a b]|]; reflexivity.
+Qed.
+
+Lemma find_close_spec r neg m rest : find_close r = Some (neg, m, rest) <-> set_text r neg m rest.
+Proof.
+  rewrite find_close_unfold. unfold set_text. destruct r as [|c r'].
+  - split; [discriminate|]. intros [f [b [_ [_ [E _]]]]]. destruct neg; discriminate.
+  - destruct (N.eqb c c_bang) eqn:Ec.
+    + apply N.eqb_eq in Ec. subst c. destruct (close_after r') as [[m' rest']|] eqn:E.
+      * split.
+        -- intros H. inversion H; subst. apply close_after_some in E. destruct E as [f [b [Em [Hb Er]]]].
+           exists f, b. subst. simpl. repeat split; auto. discriminate.
+        -- intros [f [b [Em [Hb [Er Hf]]]]]. destruct neg.
+           ++ simpl in Er. inversion Er; subst.
+              assert (close_after (f :: b ++ c_rbrack :: rest) = Some (f :: b, rest)) as X
+                by (apply close_after_some; exists f, b; auto).
+              rewrite X in E. inversion E; subst. reflexivity.
+           ++ simpl in Er. inversion Er; subst. exfalso. apply Hf; reflexivity.
+      * split; [discriminate|]. intros [f [b [Em [Hb [Er Hf]]]]]. destruct neg.
+        -- simpl in Er. inversion Er; subst.
+           assert (close_after (f :: b ++ c_rbrack :: rest) = Some (f :: b, rest)) as X
+             by (apply close_after_some; exists f, b; auto).
+           congruence.
+        -- simpl in Er. inversion Er; subst. exfalso. apply Hf; reflexivity.
+    + apply N.eqb_neq in Ec. destruct (close_after (c :: r')) as [[m' rest']|] eqn:E.
+      * split.
+        -- intros H. inversion H; subst. apply close_after_some in E. destruct E as [f [b [Em [Hb Er]]]].
+           exists f, b. subst. simpl. repeat split; auto. intros _ X. inversion Er; subst. congruence.
+        -- intros [f [b [Em [Hb [Er Hf]]]]]. destruct neg.
+           ++ simpl in Er. inversion Er; subst. congruence.
+           ++ simpl in Er. rewrite Er in E.
+              assert (close_after (f :: b ++ c_rbrack :: rest) = Some (f :: b, rest)) as X
+                by (apply close_after_some; exists f, b; auto).
+              rewrite X in E. inversion E; subst. reflexivity.
+      * split; [discriminate|]. intros [f [b [Em [Hb [Er Hf]]]]]. destruct neg.
+        -- simpl in Er. inversion Er; subst. congruence.
+        -- simpl in Er. rewrite Er in E.
+           assert (close_after (f :: b ++ c_rbrack :: rest) = Some (f :: b, rest)) as X
+             by (apply close_after_some; exists f, b; auto).
+           congruence.
+Qed.
+
+Lemma parse_items_spec : forall n b, length b <= n -> items_of b (parse_items b).
+Proof.
+  induction n as [|n IH]; intros b Hn.
+  - destruct b; [constructor | simpl in Hn; lia].
+  - destruct b as [|c r]; [constructor|]. simpl.
+    destruct r as [|d [|h r']].
+    + apply io_char; [intros h r' X; discriminate | constructor].
+    + apply io_char; [intros h r' X; discriminate|]. apply IH. simpl in *. lia.
+    + destruct (N.eqb d c_hyphen) eqn:Ed.
+      * apply N.eqb_eq in Ed. subst d. apply io_range. apply IH. simpl in *. lia.
+      * apply N.eqb_neq in Ed. apply io_char.
+        -- intros h' r'' X. inversion X. congruence.
+        -- apply IH. simpl in *. lia.
+Qed.
+
+Lemma parse_glob_cons c r :
+  parse_glob (c :: r) =
+    if N.eqb c c_star then PStar :: parse_glob r
+    else if N.eqb c c_qmark then PAny :: parse_glob r
+    else if N.eqb c c_lbrack then
+      match find_close r with
+      | Some (neg, body, rest) => PSet neg (parse_items body) :: parse_glob rest
+      | None => PLit c :: parse_glob r
+      end
+    else PLit c :: parse_glob r.
+Proof.
+  unfold parse_glob. simpl.
+  destruct (N.eqb c c_star); [reflexivity|]. destruct (N.eqb c c_qmark); [reflexivity|].
+  destruct (N.eqb c c_lbrack); [|reflexivity].
+  destruct (find_close r) as [[[neg body] rest]|] eqn:E; [|reflexivity].
+  apply find_close_length in E. rewrite (parse_glob_fuel_enough (length r) rest) by lia. reflexivity.
+Qed.
+
+Theorem parse_glob_parses : forall s, parses s (parse_glob s).
+Proof.
+  intros s. remember (length s) as n eqn:Hn. revert s Hn.
+  induction n as [n IH] using (well_founded_induction Wf_nat.lt_wf). intros s Hn.
+  destruct s as [|c r]; [constructor|]. rewrite parse_glob_cons. simpl in Hn.
+  assert (parses r (parse_glob r)) as Hr by (apply (IH (length r)); [lia | reflexivity]).
+  destruct (N.eqb c c_star) eqn:E1; [apply N.eqb_eq in E1; subst c; constructor; exact Hr|].
+  destruct (N.eqb c c_qmark) eqn:E2; [apply N.eqb_eq in E2; subst c; constructor; exact Hr|].
+  apply N.eqb_neq in E1. apply N.eqb_neq in E2.
+  destruct (N.eqb c c_lbrack) eqn:E3.
+  - apply N.eqb_eq in E3. subst c. destruct (find_close r) as [[[neg body] rest]|] eqn:E.
+    + pose proof (find_close_length _ _ _ _ E) as L. apply find_close_spec in E.
+      apply pa_set with (members := body) (rest := rest); auto.
+      * apply (parse_items_spec (length body)). lia.
+      * apply (IH (length rest)); [lia | reflexivity].
+    + apply pa_open; auto. intros neg m rest X. apply find_close_spec in X. congruence.
+  - apply N.eqb_neq in E3. apply pa_lit; auto. intros [X|[X|X]]; congruence.
+Qed.
+
+Lemma items_of_fun b : forall i1 i2, items_of b i1 -> items_of b i2 -> i1 = i2.
+Proof.
+  intros i1 i2 H1. revert i2. induction H1 as [|c h r its H IH|c r its Hn H IH]; intros i2 H2.
+  - inversion H2. reflexivity.
+  - inversion H2 as [|c' h' r' its' H'|c' r' its' Hn' H']; subst.
+    + f_equal. apply IH. assumption.
+    + exfalso. apply (Hn' h r). reflexivity.
+  - inversion H2 as [|c' h' r' its' H'|c' r' its' Hn' H']; subst.
+    + exfalso. apply (Hn h' r'). reflexivity.
+    + f_equal. apply IH. assumption.
+Qed.
+
+Theorem parses_fun : forall s p, parses s p -> p = parse_glob s.
+Proof.
+  intros s p H. induction H as [|r p H IH|r p H IH|r neg m rest its p St Hi H IH|r p Hn H IH|c r p Hc H IH];
+    try rewrite parse_glob_cons.
+  - reflexivity.
+  - simpl. subst. reflexivity.
+  - simpl. subst. reflexivity.
+  - simpl. apply find_close_spec in St. rewrite St. subst p. f_equal. f_equal.
+    apply (items_of_fun m); auto. apply (parse_items_spec (length m)). lia.
+  - simpl. destruct (find_close r) as [[[neg m] rest]|] eqn:E.
+    + apply find_close_spec in E. exfalso. apply (Hn neg m rest). exact E.
+    + subst. reflexivity.
+  - assert (N.eqb c c_star = false) as E1 by (apply N.eqb_neq; intros X; apply Hc; left; exact X).
+    assert (N.eqb c c_qmark = false) as E2 by (apply N.eqb_neq; intros X; apply Hc; right; left; exact X).
+    assert (N.eqb c c_lbrack = false) as E3 by (apply N.eqb_neq; intros X; apply Hc; right; right; exact X).
+    rewrite E1, E2, E3. subst. reflexivity.
+Qed.
+
+Theorem parse_glob_spec_proof : forall s p, parses s p <-> p = parse_glob s.
+Proof. intros. split; [apply parses_fun | intros; subst; apply parse_glob_parses]. Qed.
